@@ -27,12 +27,12 @@ def distinct_until_changed(key_mapper=None):
         if key_mapper:
             key = key_mapper(i)
 
-        if key != acc[2]:
-            return (True, i, key)
-        return (False, i, key)
+        if acc[3] is False or key != acc[2]:
+            return (True, i, key, True)
+        return (False, i, key, True)
 
     return rx.pipe(
-        rs.ops.scan(_distinct, seed=(False, None, None)),
+        rs.ops.scan(_distinct, seed=(False, None, None, False)),
         rs.ops.filter(lambda i: i[0] is True),
         rs.ops.map(lambda i: i[1]),
     )
